@@ -71,6 +71,29 @@ func kInit(dir, tier string) error {
 	return nil
 }
 
+// kInitUnpriv is kInit followed by dropping to an unprivileged uid. Checks whose probe issues
+// path-modifying system calls that are only *meant* to be stopped by the tracer (C02, C03, C15) use it:
+// should a changed tree let such a call through, it runs as nobody and cannot touch the machine.
+func kInitUnpriv(dir, tier string) error {
+	if err := kInit(dir, tier); err != nil {
+		return err
+	}
+	nullFile()
+	os.Chown(dir, 65534, 65534)
+	if os.Getuid() == 0 {
+		if err := syscall.Setgroups(nil); err != nil {
+			return err
+		}
+		if err := syscall.Setgid(65534); err != nil {
+			return err
+		}
+		if err := syscall.Setuid(65534); err != nil {
+			return err
+		}
+	}
+	return nil
+}
+
 func loadSysInfo() {
 	sysInfoOnce.Do(func() {
 		info, err := arch.GetInfo("")
@@ -415,20 +438,31 @@ func kBuildContainer(extraMounts func(b *mount.Builder), cred container.CredGene
 		extraMounts(mb)
 	}
 	b := container.Builder{Root: root, Mounts: mb.FilterNotExist().Mounts, Stderr: stderr, CredGenerator: cred, InitCommand: kInitCommand}
-	var env container.Environment
-	for attempt := 0; attempt < 4; attempt++ {
-		// Build pings the new init with a 3 s deadline; on a fully loaded machine that can expire
-		env, err = b.Build()
-		if err == nil {
-			break
-		}
-		time.Sleep(200 * time.Millisecond)
-	}
+	env, err := kBuildRetry(&b)
 	if err != nil {
 		os.Remove(root)
 		return nil, err
 	}
 	return &kContainer{env: env, rootDir: root, probe: "/probe/" + filepath.Base(probePath)}, nil
+}
+
+// kBuildRetry: Build pings the new init with a fixed 3 s real-time deadline. On a fully loaded
+// machine that deadline can expire although nothing is wrong; the build is repeated, and if the
+// deadline keeps expiring the run is void (no verdict), never a violation: no property speaks
+// about how fast an environment comes up.
+func kBuildRetry(b *container.Builder) (container.Environment, error) {
+	var env container.Environment
+	var err error
+	for attempt := 0; attempt < 6; attempt++ {
+		env, err = b.Build()
+		if err == nil || !strings.Contains(err.Error(), "i/o timeout") {
+			return env, err
+		}
+		vcore.Heartbeat()
+		time.Sleep(time.Duration(200*(attempt+1)) * time.Millisecond)
+	}
+	vcore.VoidRun("container_build_ping_deadline")
+	return nil, err
 }
 
 func (k *kContainer) destroy() {
